@@ -42,9 +42,20 @@ func c01(c *ctx) {
 	prof := gram.AllOps()
 	var cases []*gcase
 	for i := 0; i < n; i++ {
-		g := gram.Random(r, prof)
+		var g *gram.Grammar
+		alpha := prof.Alphabet
+		switch i % 6 {
+		case 1, 4: // shared prefixes through rule references: the same rule is called from several alternatives
+			alpha = []rune("abc\né😀")
+			g = gram.Backtracky(r, alpha)
+		case 3: // wide choices
+			g = gram.ChoiceHeavy(r)
+			alpha = append([]rune("abcdefgz"), g.Runes()...)
+		default:
+			g = gram.Random(r, prof)
+		}
 		cs := &gcase{id: i, g: g}
-		cs.entries = entriesFor(r, g, 14, true, 5, prof.Alphabet)
+		cs.entries = entriesFor(r, g, 14, true, 5, alpha)
 		cases = append(cases, cs)
 	}
 	entriesSeen := map[string]bool{}
@@ -96,7 +107,7 @@ func c01(c *ctx) {
 	need = append(need, "ref_query:taken", "ref_query:skipped", "ref_rep:zero", "ref_rep:many", "ref_nil", "ref_state_change", "ref_action_reached", "ref_lit_matched_other_case", "non_first_entry_evaluations")
 	sort.Strings(need)
 	requireCov(c, need...)
-	c.run.Rule = "cases: random well-formed grammars (1-7 rules, depth<=4, every operator of the .peg language incl. semantic predicates, state changes, case-insensitive literals/classes, negated classes, empty alternatives), printed with random spelling variants, run through the real peg (default options) and the Go compiler; " +
+	c.run.Rule = "cases: random well-formed grammars (half from the all-operator profile: 1-7 rules, depth<=4; a third shared-prefix grammars whose alternatives call the same rules; a sixth wide-choice grammars; every operator of the .peg language incl. semantic predicates, state changes, case-insensitive literals/classes, negated classes, empty alternatives), printed with random spelling variants, run through the real peg (default options) and the Go compiler; " +
 		"inputs: derivation walks, mutations, strings over the grammar's boundary runes, empty input; entries: Parse() and Parse(rule) for every other rule; memo on and off. Oracle: verdict and consumed prefix of the reference PEG interpreter. " +
 		"distinct_nontrivial = distinct (grammar text, entry, input) on which the reference backtracked after consuming input or evaluated a lookahead."
 	c.run.Assume("grammars are well-formed by gram's own syntactic analysis (no left recursion through any operator, no */+ over a possibly-empty operand)")
